@@ -251,6 +251,40 @@ def fam_mixed_dbc(tier: str, rng: random.Random) -> Iterator[dict]:
             del SHAPES[shape]
 
 
+def fam_accessors(tier: str, rng: random.Random) -> Iterator[dict]:
+    """Properties with and without a setter along hierarchies: every accessor inherits contracts on its own - a setter
+    that the ancestors do not provide may declare preconditions; a re-declared property without a setter has none."""
+    opts = [None, ((0, 0, 0), None), ((0, 1, 0), None), ((0, 0, 0), (0, 0, 0)), ((0, 0, 0), (1, 0, 0)),
+            ((0, 1, 0), (1, 0, 0)), ((1, 0, 0), (0, 1, 0)), ((0, 0, 0), (0, 1, 0))]
+    for shape in ("chain2", "chain3", "siblings", "twobases"):
+        n = len(SHAPES[shape])
+        mros = mro_of(SHAPES[shape])
+        combos = list(itertools.product(opts, repeat=n))
+        if tier == "quick" and len(combos) > 110:
+            combos = rng.sample(combos, 110)
+        for combo in combos:
+            for rootinv in ([], ["CALL"]):
+                b = Builder()
+                cls = []
+                for k, bases in enumerate(SHAPES[shape], 1):
+                    members = []
+                    o = combo[k - 1]
+                    if o is not None:
+                        g, st = o
+                        members.append({"name": "f", "kind": "prop", "decos": stack(b, g[0], g[1], g[2], (), snap_name=k)})
+                        if st is None:
+                            members.append({"name": "fset", "kind": "none", "decos": []})
+                        else:
+                            members.append({"name": "fset", "kind": "pset",
+                                            "decos": stack(b, st[0], st[1], st[2], (), snap_name=10 + k)})
+                    invs = [{"c": b.new("inv", on)} for on in (rootinv if k == 1 else [])]
+                    cls.append({"bases": list(bases), "mro": mros[k - 1], "dbc": True, "members": members, "invs": invs,
+                                "mod": "app.models"})
+                if not b.con:
+                    continue
+                yield {"hid": 0, "tag": "accessors-" + shape, "names": ["f", "fset"], "con": b.con, "cls": cls, "posthoc": []}
+
+
 def fam_foreign_hier(tier: str, rng: random.Random) -> Iterator[dict]:
     """Overrides that carry foreign functools.wraps decorators above / between / below their contract decorators,
     in hierarchies (the merged contracts must land on the one real checker)."""
